@@ -24,6 +24,32 @@ def build(name):
     return m
 
 
+def pump_channel():
+    """A user-style channel whose update reads a membrane-current state (i_Ca), as calcium
+    pumps / Nernst mechanisms do."""
+    from jaxley.channels import Channel
+
+    class CaPump(Channel):
+        def __init__(self, name=None):
+            self.current_is_in_mA_per_cm2 = True
+            super().__init__(name)
+            self.channel_params = {f"{self._name}_gamma": 0.05, f"{self._name}_decay": 80.0}
+            self.channel_states = {"CaCon_i": 5e-05}
+            self.current_name = "i_Ca"
+
+        def update_states(self, states, dt, v, params):
+            ica, cai = states["i_Ca"], states["CaCon_i"]
+            drive = -10000.0 * ica * params[f"{self._name}_gamma"]
+            return {"CaCon_i": cai + dt * (drive - (cai - 5e-05) / params[f"{self._name}_decay"])}
+
+        def compute_current(self, states, v, params):
+            return 0.0 * v
+
+        def init_state(self, states, v, params, delta_t):
+            return {}
+    return CaPump()
+
+
 def _build(name):
     import jaxley as jx
     from jaxley.channels import HH, Leak, Na, K, Km, CaL, CaT
@@ -32,6 +58,9 @@ def _build(name):
     comp = jx.Compartment()
     if name == "comp_hh":
         m = jx.Compartment(); m.insert(HH())
+        return m
+    if name == "comp_pump":
+        m = jx.Compartment(); m.insert(Leak()); m.insert(CaL()); m.insert(pump_channel())
         return m
     if name == "comp_leak":
         m = jx.Compartment(); m.insert(Leak())
